@@ -30,7 +30,7 @@ CATS = ['expr', 'space', 'hash', 'tok']
 def run(S):
     kt = T.KT = T.KindTable(S.driver, S.adts)
     core = S.core
-    K = 3 if S.tier == 'quick' else 4
+    K = 3 if S.tier == 'quick' else 5
     f_math = S.find_fn(core, 'PrettyPrinter::convert_math')
     f_delim = S.find_fn(core, 'PrettyPrinter::convert_math_delimited')
     found = []
